@@ -515,18 +515,23 @@ impl Printable for ArgsDesc {
 			out
 		}
 
-		let start = LineNumber::new("args start line");
-		let end = LineNumber::new("args end line");
-		let multi_line = Rc::new(move |condition_context: &mut ConditionResolverContext| {
-			is_multiple_lines(condition_context, start, end)
-		});
-
 		let (children, end_comments) = children_between::<Arg>(
 			self.syntax().clone(),
 			self.l_paren_token().map(Into::into).as_ref(),
 			self.r_paren_token().map(Into::into).as_ref(),
 			None,
 		);
+
+		let source_is_multiline =
+			children.iter().any(|c| c.triggers_multiline) || end_comments.should_start_with_newline;
+
+		let start = LineNumber::new("args start line");
+		let end = LineNumber::new("args end line");
+		let multi_line: ConditionResolver = if source_is_multiline {
+			true_resolver()
+		} else {
+			Rc::new(move |ctx: &mut ConditionResolverContext| is_multiple_lines(ctx, start, end))
+		};
 
 		// Comments before `)` belong to the indented block, like the ones before `]` and `}`
 		let args_items = gen_args(children, multi_line.clone());
